@@ -76,7 +76,7 @@ def pool_strategy(draw):
     # custom scaling weights per (spec): kept in the pool so that keys are plain data
     scal = []
     for sp in specs:
-        scal.append(draw(S.scaling_dict_strategy(sp, kinds=("custom",))))
+        scal.append(draw(S.scaling_dict_strategy(sp, kinds=("custom", "custom", "nominal", "gradjac"))))
     return {"specs": specs, "starts": starts, "params": params, "scalings": scal}
 
 
@@ -160,11 +160,18 @@ def check(case):
     nsolves = 0
     state0 = global_state()
 
+    params_objects = {}  # the caller keeps ONE Params object per configuration and builds every solver from it
+
+    def build(c, i, j):
+        problem, params, x0, y0 = SC.build(c)
+        params = params_objects.setdefault((i, j), params)
+        return problem, params, x0, y0
+
     def do_solve(i, j, k, solver_entry=None):
         nonlocal nsolves
         c = _case_for(pool, i, j, k)
         if solver_entry is None:
-            problem, params, x0, y0 = SC.build(c)
+            problem, params, x0, y0 = build(c, i, j)
             solver = make_tracing_solver(problem, params)
         else:
             _, _, solver, problem, params = solver_entry
@@ -197,7 +204,7 @@ def check(case):
             if kind == "new":
                 _, i, j = op
                 c = _case_for(pool, i, j, 0)
-                problem, params, _, _ = SC.build(c)
+                problem, params, _, _ = build(c, i, j)
                 solvers.append((i, j, make_tracing_solver(problem, params), problem, params))
                 continue
             if kind == "again":
@@ -207,7 +214,7 @@ def check(case):
                 ent = next((e for e in solvers if e[0] == i and e[1] == j), None)
                 if ent is None:
                     c = _case_for(pool, i, j, 0)
-                    problem, params, _, _ = SC.build(c)
+                    problem, params, _, _ = build(c, i, j)
                     ent = (i, j, make_tracing_solver(problem, params), problem, params)
                     solvers.append(ent)
                     how = "fresh"
